@@ -411,6 +411,9 @@ func (vc *VC) applyContractX(fr *Frame, spec *FuncSpec, name string, sig *types.
 			vc.oblige("call-pre", name+":"+vc.clauseLabel("requires", rq, i), t, pos, "precondition of "+name+": "+rq.Src)
 		}
 	}
+	if contains(spec.LockHeld, "*") && !vc.lockChecksOff && len(vc.held) == 0 {
+		vc.oblige("lock", "callee-needs-lock:"+name, "false", pos, name+" must be called with the protecting lock held")
+	}
 	// frame
 	if spec.ModAll {
 		vc.havocAll("callee " + name + " declares modifies *")
@@ -727,7 +730,7 @@ func (vc *VC) havocLocNoFrame(m ModLoc) {
 // lockWriteCheck: a write to storage that some lock protects needs that lock
 // held in write mode (or the object is freshly allocated).
 func (vc *VC) lockWriteCheck(l *Loc, pos token.Pos) {
-	if vc.discovery > 0 || l.Kind == RLocal {
+	if vc.discovery > 0 || l.Kind == RLocal || vc.lockChecksOff {
 		return
 	}
 	prot := vc.p.protectedHeaps(vc)
@@ -756,7 +759,7 @@ func (vc *VC) lockWriteCheck(l *Loc, pos token.Pos) {
 }
 
 func (vc *VC) lockReadCheck(l *Loc, pos token.Pos) {
-	if vc.discovery > 0 || l.Kind == RLocal {
+	if vc.discovery > 0 || l.Kind == RLocal || vc.lockChecksOff {
 		return
 	}
 	prot := vc.p.protectedHeaps(vc)
